@@ -358,6 +358,7 @@ class NdpolyNew(Contract):
         p = Poly(ctx, ctx.fresh("new"), N=E.n, D=E.D, row=rows, shape=shp, dtype=dt, names=nm,
                  region=Region("fresh", "ndpoly()"), init=lambda t, i: z3.BoolVal(False))
         p.owndata = z3.BoolVal(True)
+        p.c_contiguous = z3.BoolVal(True)           # numpy.ndarray.__new__ allocates in C order
         p.allocation = allocation if allocation is not None else 2 * E.n
         p.built_from_exponents = E
         hook = getattr(ex, "hooks", {}).get("after_ndpoly") if isinstance(getattr(ex, "hooks", None), dict) else None
@@ -777,6 +778,7 @@ class PolynomialFromAttributes(Contract):
         r = Poly(ctx, ctx.fresh("fa"), N=E2.n, D=E2.D, row=E2._row, C=lambda t, i: items.item(t).elem(i),
                  shape=c0.shape, dtype=dt, names=nm, region=Region("fresh", "from_attributes"))
         r.owndata = z3.BoolVal(True)
+        r.c_contiguous = z3.BoolVal(True)
         ctx.assume(r.wf(ctx))
         # its rows are (column projections of) rows handed in, which were required to be storable above
         ctx.assume(ctx.forall_range(0, r.N, lambda t: keyok(r.row(t), r.D)))
